@@ -3,6 +3,7 @@
 package scen
 
 import (
+	"encoding/hex"
 	"fmt"
 	"strings"
 
@@ -426,4 +427,39 @@ func init() {
 	}
 	pt := c10Params{base: "inbound", closers: 2, reader: true, instants: []int{0, 100}, tcp: true}
 	register("both", &h.Scenario{Name: "C10-tcp-inbound-2closers", Prop: "C10", P: 1, F: 0, D: 1, Run: c10Run(pt), Check: c10Oracle(pt)})
+}
+
+// c10WireOracle: C03's full-stack scenario ends with Close while the connection server is still
+// acknowledging the gateway's requests on the same socket: whatever shares that socket, exactly one
+// disconnect request leaves it, as a whole frame, and nothing that leaves it is mangled.
+func c10WireOracle(tr *mc.Trace) []h.Violation {
+	vs := generic(tr, "C10", false)
+	disc := 0
+	for _, e := range tr.Log {
+		wr, ok := e.V.(Wrote)
+		if !ok {
+			continue
+		}
+		b, _ := hex.DecodeString(wr.Hex)
+		var v knxnet.Service
+		if len(b) < 6 || (int(b[4])<<8|int(b[5])) != len(b) {
+			vs = append(vs, h.Violation{Class: "C10:transmission-corrupt", Msg: fmt.Sprintf("a buffer of %d octets left the socket whose header announces %d: %s", len(b), int(b[4])<<8|int(b[5]), wr.Hex)})
+			continue
+		}
+		if _, err := knxnet.Unpack(b, &v); err != nil {
+			vs = append(vs, h.Violation{Class: "C10:transmission-corrupt", Msg: fmt.Sprintf("the client put %s on the wire, which is no frame: %v", wr.Hex, err)})
+			continue
+		}
+		if _, ok := v.(*knxnet.DiscReq); ok {
+			disc++
+		}
+	}
+	if tr.Reason == "main-returned" && disc != 1 {
+		vs = append(vs, h.Violation{Class: "C10:disconnect-requests-on-the-wire", Msg: fmt.Sprintf("%d disconnect requests left the socket (the socket was usable when Close began): want exactly one", disc)})
+	}
+	return vs
+}
+
+func init() {
+	register("both", &h.Scenario{Name: "C10-fullstack-close-shares-the-socket-with-acknowledgements", Prop: "C10", P: 2, F: 0, D: 4, Run: c03FullStack(), Check: c10WireOracle})
 }
